@@ -18,7 +18,7 @@ func init() {
 		Decided: "a reused Parser or Printer starts from the same state as a fresh one: every field is reset, or is configuration (written only by options and the constructor), or is set by every " +
 			"entry point before use, or is scratch, or is provably written before it is read, each class checked mechanically where it can be (R08a); every entry point resets before touching " +
 			"the receiver, and the convenience entry points reach the lexer only through those (R08b); Parse and StmtsSeq run the same prologue, statement loop and heredoc epilogue (R08c); " +
-			"the counters behind Incomplete() and backquote tracking are decremented on every path after each increment (R08d).",
+			"the counters behind Incomplete() and backquote tracking are decremented on every path after each increment (R08d). Fields that are not reset are proved written before read (interprocedurally, or by state gating) or are one of three reasoned exceptions with a mechanical necessary condition; InteractiveSeq yields everything it accumulated (R08f).",
 		NotDecided:  "that the statements yielded by the streaming entry points equal Parse's; timing of InteractiveSeq callbacks; that `written before read` fields (spaced, pos, regexp and backquote bookkeeping) are written on every input before their first read — reasoned per field, one line each.",
 		Assumptions: []string{"struct fields are only written through selector assignments, inc/dec, composite literals and address-taking (no reflection/unsafe in package syntax's parser and printer)"},
 		Controls:    c08Controls,
